@@ -9,7 +9,7 @@ from omegaconf import DictConfig, OmegaConf, SCMode
 import pkg_resources
 from experimaestro.utils import logger
 from .base import ConnectorConfiguration, TokenConfiguration
-from .specs import HostRequirement
+from .specs import HostRequirement, RequirementUnion
 
 if typing.TYPE_CHECKING:
     from experimaestro.launchers import Launcher
@@ -153,6 +153,9 @@ class LauncherRegistry:
         for spec in input_specs:
             if isinstance(spec, str):
                 specs.extend(parse(spec))
+            elif isinstance(spec, RequirementUnion):
+                # a | b means the same as "a | b": each alternative in turn
+                specs.extend(spec.requirements)
             else:
                 specs.append(spec)
 
